@@ -348,3 +348,20 @@ def fault_db():
         db.raw = db.conn
         db.conn = proxy
     return db, f
+
+
+def native_float_in(module):
+    """CrossHair's patched float() turns float('inf') into a solver-backed value whose search
+    node is never exhausted.  Bind a float() that evaluates string constants natively in
+    *module* (wn.similarity uses float('inf') for unconnected synsets)."""
+    if not SYM:
+        return
+    from crosshair.tracers import NoTracing
+    real_float = float
+
+    def _float(x=0.0):
+        if type(x) is str:
+            with NoTracing():
+                return real_float(x)
+        return real_float(x)
+    module.float = _float
